@@ -108,6 +108,18 @@ def util_call(which, spec, vec):
     prof = canon.build_profile(spec)
     if which == "vector":
         return observe(U.score_profile_from_rankings, prof, [canon.pf(v) for v in vec])
+    if which == "pairwise":
+        # the pairwise comparison graph as a per-candidate summary: (dominating tier, summed winning margins); `vec` carries
+        # the optional ballot_length argument
+        def summary():
+            from votekit.graphs import PairwiseComparisonGraph
+            g = PairwiseComparisonGraph(prof) if vec is None else PairwiseComparisonGraph(prof, ballot_length=vec)
+            tier = {c: i for i, t in enumerate(g.dominating_tiers()) for c in t}
+            won = {c: F(0) for c in spec["cands"]}
+            for (a, b), w in g.pairwise_dict.items():
+                won[a] += F(w)
+            return {c: F(tier[c] * 10 ** 6) + won[c] for c in spec["cands"]}
+        return observe(summary)
     return observe(getattr(U, which), prof)
 
 
@@ -160,8 +172,11 @@ def check_case(ctx, case, vlist=None):
 def gen_case(rnd, i, maxn):
     if i % 5 == 4:
         spec = gen.ranked(rnd, ties=rnd.random() < 0.6, maxn=maxn)
-        which = rnd.choice(UTILS)
+        which = rnd.choice(UTILS + ["pairwise"])
         vec = None
+        if which == "pairwise":
+            spec = gen.ranked(rnd, ties=False, maxn=min(maxn, 5))
+            vec = rnd.choice([None, None] + list(range(1, len(spec["cands"]) + 2)))  # ballot_length: default, 1 .. n+1
         if which == "vector":
             n = len(spec["cands"])
             vec = [canon.fs(F(v)) for v in sorted([rnd.choice([0, 1, 2, 3, F(1, 2), F(7, 3)]) for _ in range(rnd.randint(1, n + 1))], reverse=True)]
